@@ -491,7 +491,7 @@ fn lazy(out: &mut dyn Write, r: &mut ChaCha20Rng, seqs: &[String]) {
                 if *class == "invalid" && from == "element" {
                     continue;
                 }
-                let has_mutator = seq.chars().any(|c| !matches!(c, 'C' | 'E' | 'V'));
+                let has_mutator = seq.chars().any(|c| !matches!(c, 'C' | 'E' | 'V' | 'Q'));
                 if has_mutator && ci != 0 && !(ci == 1 && seq.len() <= 2) {
                     continue;
                 }
@@ -536,7 +536,18 @@ fn lazy(out: &mut dyn Write, r: &mut ChaCha20Rng, seqs: &[String]) {
                     "nc":cs.num_constraints(),"nw":cs.num_witness_variables(),"ok":var.is_ok()}));
                 if let Ok(v0) = &var {
                     let mut v: ElementVar = v0.clone();
+                    let mut cur: Element = e;
+                    let mut mutated = false;
                     for op in seq.chars() {
+                        // the value the variable denotes after this call, computed natively
+                        let next = match op {
+                            'D' => Some(cur + cur),
+                            'N' => Some(-cur),
+                            'P' => Some(cur + Element::GENERATOR),
+                            'M' => Some(cur - Element::GENERATOR),
+                            'S' => Some(Element::GENERATOR + Element::GENERATOR),
+                            _ => None,
+                        };
                         let val = match op {
                             'C' => guarded(|| v.compress_to_field().map(|x| json!({"fq": fq_value(&x)}))),
                             'E' => guarded(|| {
@@ -559,6 +570,20 @@ fn lazy(out: &mut dyn Write, r: &mut ChaCha20Rng, seqs: &[String]) {
                                 v -= Element::GENERATOR;
                                 Ok(json!({}))
                             }),
+                            // equality enforced against a SECOND variable allocated from the same value in the same way
+                            // (from the same encoding, still undecoded / from the same element): forces the element
+                            'Q' => guarded(|| {
+                                // (the twin holds the variable's CURRENT value, tracked natively; while no in-place
+                                //  operation has happened that is the original encoding, valid or not)
+                                let w2: ElementVar = if from == "encoding" {
+                                    let enc = if mutated { cur.vartime_compress_to_field() } else { s };
+                                    AllocVar::<Fq, Fq>::new_witness(cs.clone(), || Ok(enc))?
+                                } else {
+                                    ElementVar::new_witness(cs.clone(), || Ok(cur))?
+                                };
+                                v.enforce_equal(&w2)?;
+                                Ok(json!({}))
+                            }),
                             // conditional selection against the second variable: 'S' takes it, 'T' keeps v
                             _ => guarded(|| {
                                 let w = other.clone().ok_or(SynthesisError::AssignmentMissing)?;
@@ -568,6 +593,10 @@ fn lazy(out: &mut dyn Write, r: &mut ChaCha20Rng, seqs: &[String]) {
                                 Ok(json!({}))
                             }),
                         };
+                        if let Some(nx) = next {
+                            cur = nx;
+                            mutated = true;
+                        }
                         let mut ev = json!({"k":"lazy_op","op": op.to_string(), "nc": cs.num_constraints(), "nw": cs.num_witness_variables()});
                         match val {
                             Ok(Ok(x)) => ev["val"] = x,
